@@ -6,6 +6,7 @@ acknowledged shares (DESIGN.md section 5, C47)."""
 from fractions import Fraction
 
 from sa.h import *
+from sa.cfg import reaching_defs
 
 EXPLANATION = (
     "Decided (structural, all paths): (1) Publish._done is called only from Publish._push, and every path to that "
@@ -14,7 +15,10 @@ EXPLANATION = (
     "push_everything_else registers on finish_publishing()'s Deferred before _push, and finish_publishing returns a "
     "DeferredList over every writer's Deferred (no fire-on-first option); (3) on every writer Deferred the server's "
     "answer reaches _got_write_answer(writer) unchanged and a failure reaches _connection_problem(writer) unswallowed "
-    "(earlier callbacks are pass-through), and _connection_problem discards exactly that writer; (4) in "
+    "(earlier callbacks are pass-through; a closure standing in for either handler must call it on every normal path for "
+    "the writer bound when it is registered - registration argument or default value evaluated in that writer's iteration - "
+    "never for a variable of finish_publishing that the loop re-binds before the closure fires), and _connection_problem "
+    "discards exactly that writer; (4) in "
     "_got_write_answer every normal exit with a false 'wrote' has stored self.surprised = True, and the "
     "servermap/placed tables record the share only under wrote and a set versioninfo, for this writer's (server, "
     "shnum); (5) _failure delivers NotEnoughServersError when not surprised and UncoordinatedWriteError when "
@@ -35,15 +39,25 @@ EXPLANATION = (
     "surprise detection over a surprise set that starts from every share of the answer (C12.4, C12.11), the answer "
     "reaches the handler unchanged (C12.5), no local of _got_write_answer is read unbound before the marking "
     "(C12.10: the NameError would be swallowed by the DeferredList), and the server applies write vectors only under a "
-    "passed test-vector evaluation that stops at the first failing vector (C12.9). "
-    "Undecided: what _evaluate_write_vectors / MutableShareFile.writev put on disk, the byte comparison inside "
-    "check_testv, the wire conversion between client and server (C31), the bytes of the shares (hash trees, "
+    "passed test-vector evaluation that stops at the first failing vector (C12.9), and no protocol hop between the write proxy "
+    "and the share comparison drops, filters, re-keys or recomputes any part of a test vector - both IStorageServer adapters, "
+    "the HTTP body and handler, the Foolscap server object, and check_testv comparing `length` bytes at `offset` with the "
+    "whole specimen (C12.16-18: a size recomputed from the specimen turns the 'slot must be empty' guard (0, 1, b'') into a test "
+    "every share passes); (13) adopted from C23.9/C23.10: the same hops hand on the writer's own write vectors, new_length and "
+    "read vector, element by element, and the HTTP handler answers the server's verdict and reads; (14) the answer's way back: "
+    "the Foolscap adapter returns callRemote('slot_testv_and_readv_and_writev')'s own Deferred (pass-through callbacks only), the "
+    "HTTP client builds its result object from the decoded response, and the HTTP adapter returns (verdict field, reads field) "
+    "of that object where each field is filled from the response key under which the handler sent that element of the storage "
+    "server's answer - so the 'wrote' the publisher tests is the server's verdict on both transports. "
+    "Undecided: what _evaluate_write_vectors / MutableShareFile.writev put on disk, what _read_share_data returns for an "
+    "offset / length, CBOR / Foolscap (de)serialisation and HTTP status handling (C31), the bytes of the shares (hash trees, "
     "signature, offsets - a publish of malformed shares is still acknowledged), exceptions other than unbound names "
     "raised inside _got_write_answer before self.surprised = True (swallowed by the DeferredList, value-level), that "
     "finish_publishing's loops visit every live writer (iteration narrowing is value-level), which servers update_goal "
     "picks and whether k distinct servers are used, liveness of the success path (_done's _running guard, returned "
     "Deferreds of push_segment/push_everything_else), DictOfSets arithmetic, Deferred scheduling inside Twisted.")
-TECHNIQUE = "static analysis: CFG path rules with linear edge facts, who-may-call/who-may-write sweeps, Deferred chain model"
+TECHNIQUE = ("static analysis: CFG path rules with linear edge facts, who-may-call/who-may-write sweeps, Deferred chain model with "
+             "closure binding analysis, provenance of the vectors and of the answer across protocol hops")
 
 PUB = "mutable.publish:Publish"
 SDMFW = "mutable.layout:SDMFSlotWriteProxy"
@@ -223,6 +237,123 @@ def _reg_args(reg, side):
     return []
 
 
+def _node_of(cfg, astnode):
+    """CFG node whose statement is / whose own expressions contain `astnode` (lambda bodies included, nested defs not)."""
+    for n in cfg.nodes:
+        if n.ast is astnode:
+            return n
+    for n in cfg.nodes:
+        for e in node_exprs(n):
+            if any(x is astnode for x in own_nodes(e, into_lambda=True)):
+                return n
+    return None
+
+
+def _forwarder(idx, fn, tgt, method):
+    """`tgt`, registered on a Deferred inside `fn`, is a closure (nested def / lambda) that calls self.<method>:
+    (closure FuncInfo, its first parameter, [the self.<method>(..) calls]) or None."""
+    if not isinstance(tgt, (ast.Name, ast.Lambda)):
+        return None
+    info = _callable_info(idx, fn, tgt)
+    if info is None:
+        return None
+    g, p0 = info
+    calls = [c for c in calls_in_func(g, method) if call_name(c) == "self." + method]
+    if not calls:
+        return None
+    return g, p0, calls
+
+
+def _closure_defaults(g):
+    """{parameter name: default expression} of a def / lambda."""
+    a = g.node.args
+    pos = list(getattr(a, "posonlyargs", [])) + list(a.args)
+    out = {}
+    for p, d in zip(pos[len(pos) - len(a.defaults):], a.defaults):
+        out[p.arg] = d
+    for p, d in zip(a.kwonlyargs, a.kw_defaults):
+        if d is not None:
+            out[p.arg] = d
+    return out
+
+
+def _check_forwarder(r, idx, fn, dn, dv, wv, reg, side, fw, method, wname):
+    """A closure stands between the writer Deferred and self.<method>: it must make the call on every normal path and
+    hand it the writer *of this Deferred* - bound when the closure is registered (extra registration argument, default
+    value), not a variable of finish_publishing that the closure reads when it finally fires: by then the loop has
+    moved on and every closure sees the last writer."""
+    g, p0, calls = fw
+    cfg = fn.cfg()
+    gcfg = g.cfg()
+    what = "errback" if side == "err" else "callback"
+    gname = g.name if g.name != "<lambda>" else "lambda"
+
+    def forwards(n):
+        return any(call_name(c) == "self." + method for c in node_calls(n))
+    for (n, w) in find_path_avoiding(gcfg, lambda n: n.kind == "exit", gate_node=forwards):
+        r.violation(fn, fn.loc(reg.call), "the %s %s on the writer Deferred %s can finish without calling %s: %s (path: %s)" % (
+            what, gname, dv, method, "a failed write leaves its writer counted as live" if side == "err"
+            else "the write answer is not examined", w.brief()), w)
+        break
+    rd = reaching_defs(cfg)
+    here = rd.get(dn.id, {}).get(wv)
+    regnode = _node_of(cfg, reg.call)
+    if regnode is None:
+        raise AnalysisError("registration of %s not found in the CFG of %s" % (gname, short(fn)))
+    gfn = FlowNorm(g)
+    locals_g = set(g.params)
+    for m in gcfg.nodes:
+        locals_g |= {s for s in node_stores(m) if "." not in s and not s.endswith("[]")}
+    extra = _reg_args(reg, "ok" if side == "ok" else "err")
+    defaults = _closure_defaults(g)
+    for c in calls:
+        cn = _node_of(gcfg, c)
+        if side == "ok":
+            a0 = arg(c, 0, None)
+            a0 = gfn.resolve(cn, a0) if (cn is not None and a0 is not None) else a0
+            ok = isinstance(a0, ast.Name) and a0.id == p0 and not any(p0 in node_stores(m) for m in gcfg.nodes)
+            r.require(ok, fn, fn.loc(c), "the callback %s hands %s to %s, not the server's answer it received" % (
+                gname, src(g, a0) if a0 is not None else "nothing", method))
+        x = arg(c, 1, wname)
+        if x is not None and cn is not None:
+            x = gfn.resolve(cn, x)
+        if not isinstance(x, ast.Name):
+            r.violation(fn, fn.loc(c), "the %s %s calls %s for %s, not for the writer %s whose Deferred it is registered on" % (
+                what, gname, method, src(g, x) if x is not None else "no writer", wv))
+            continue
+        stored_in_g = any(x.id in node_stores(m) for m in gcfg.nodes)
+        if x.id in g.params and not stored_in_g:
+            i = g.params.index(x.id)
+            bound = extra[i - 1] if 1 <= i <= len(extra) else None
+            at = regnode
+            if bound is None and x.id in defaults:
+                bound = defaults[x.id]
+                # defaults are evaluated where the def statement / lambda expression is
+                at = regnode if isinstance(g.node, ast.Lambda) else _node_of(cfg, g.node)
+            same = isinstance(bound, ast.Name) and bound.id == wv and at is not None \
+                and rd.get(at.id, {}).get(wv) == here
+            r.require(same, fn, fn.loc(reg.call), "the %s %s is registered on the Deferred of writer %s but its parameter %s "
+                      "is bound to %s" % (what, gname, wv, x.id, src(fn, bound) if bound is not None else "nothing"))
+            continue
+        if x.id in locals_g:
+            r.violation(fn, fn.loc(c), "the %s %s calls %s for its local %s, not for the writer %s" % (
+                what, gname, method, x.id, wv))
+            continue
+        # a free variable: read from finish_publishing's frame when the closure fires
+        late = find_path_from_to_avoiding(cfg, lambda m: m is regnode, lambda m: False,
+                                          ends=lambda m, _v=x.id: _v in node_stores(m))
+        if late:
+            s0, w = late[0]
+            r.violation(fn, fn.loc(reg.call), "the %s %s on the writer Deferred %s reads %s from the enclosing frame when it fires, and "
+                        "%s re-binds %s before that (late-binding closure): every %s is attributed to the last writer of the "
+                        "loop%s (path: %s)" % (
+                            what, gname, dv, x.id, short(fn), x.id, "failed write" if side == "err" else "answer",
+                            ", the writer that failed stays counted as a placed share" if side == "err" else "", w.brief()), w)
+            continue
+        r.require(x.id == wv, fn, fn.loc(c), "the %s %s calls %s for %s, not for the writer %s whose Deferred it is "
+                  "registered on" % (what, gname, method, x.id, wv))
+
+
 def _writer_chain(r, idx, fn):
     """finish_publishing: per-writer Deferred chain.  Returns the number of writer Deferreds."""
     cfg = fn.cfg()
@@ -236,6 +367,14 @@ def _writer_chain(r, idx, fn):
                 dvars.append((n, n.ast.targets[0].id, recv.id))
     if not dvars:
         raise AnchorVanished("no 'd = <writer>.finish_publishing()' in %s" % short(fn))
+    # name of the writer parameter of the two handlers (for closures that pass it by keyword)
+    hp = {}
+    for m in ("_got_write_answer", "_connection_problem"):
+        ps = first_positional_params(idx.func(PUB + "." + m))
+        if len(ps) < 2:
+            raise AnchorVanished("%s(<result>, writer, ..) signature changed" % m)
+        hp[m] = ps[1]
+    ga_w, cp_w = hp["_got_write_answer"], hp["_connection_problem"]
     for (dn, dv, wv) in dvars:
         r.site(fn, dn.ast, "writer Deferred %s" % dv)
         chain = registrations(fn, dv)
@@ -255,6 +394,12 @@ def _writer_chain(r, idx, fn):
                                   "_got_write_answer is registered for %s, not for the writer %s whose Deferred this is" % (
                                       src(fn, a[0]) if a else "no writer", wv))
                         ok_done = True
+                    elif _forwarder(idx, fn, tgt, "_got_write_answer"):
+                        r.require(ok_intact, fn, fn.loc(reg.call), "the server's answer is replaced by an earlier callback "
+                                  "before it reaches _got_write_answer")
+                        _check_forwarder(r, idx, fn, dn, dv, wv, reg, "ok", _forwarder(idx, fn, tgt, "_got_write_answer"),
+                                         "_got_write_answer", ga_w)
+                        ok_done = True
                     elif not _is_pass_through(idx, fn, tgt):
                         ok_intact = False
                         r.sample("non pass-through success callback %s" % src(fn, tgt))
@@ -266,6 +411,12 @@ def _writer_chain(r, idx, fn):
                         r.require(bool(a) and isinstance(a[0], ast.Name) and a[0].id == wv, fn, fn.loc(reg.call),
                                   "_connection_problem is registered for %s, not for the writer %s whose Deferred this is" % (
                                       src(fn, a[0]) if a else "no writer", wv))
+                        err_done = True
+                    elif _forwarder(idx, fn, tgt, "_connection_problem"):
+                        r.require(fail_alive, fn, fn.loc(reg.call), "a write failure is swallowed by an earlier "
+                                  "errback before it reaches _connection_problem")
+                        _check_forwarder(r, idx, fn, dn, dv, wv, reg, "err", _forwarder(idx, fn, tgt, "_connection_problem"),
+                                         "_connection_problem", cp_w)
                         err_done = True
                     elif not _is_pass_through(idx, fn, tgt):
                         fail_alive = False
@@ -585,6 +736,13 @@ def run(ctx: Context):
                   expected=2) as r:
         _ack_means_written(r, idx.func(SRV + "." + REMOTE))
 
+    # -- 14. the verdict's way back to the write proxy --------------------------
+    with ctx.rule("C47.14", "R5/E7", "the (wrote, read_data) answer the write proxies receive is the storage server's: the Foolscap "
+                  "adapter returns the Deferred of callRemote('slot_testv_and_readv_and_writev'); the HTTP adapter returns the two "
+                  "fields of the read_test_write_chunks result that the HTTP client fills from the response keys under which the "
+                  "handler sent the server's verdict and reads, in that order", expected=4) as r:
+        _verdict_return_trip(r, idx)
+
 
 # --------------------------------------------------------------- shared parts
 def _push_reports_failure(r, push):
@@ -754,6 +912,208 @@ def _ack_means_written(r, fn):
             r.violation(fn, fn.loc(ret.ast), "%s can answer with a true verdict (%s) without having applied the write vectors: "
                         "the publisher counts a share the server never stored (path: %s)" % (
                             short(fn), src(fn, v.elts[0]), w.brief()), w)
+
+
+# -- the answer's return trip (C47.14) ------------------------------------------------------------------------
+# C47.8 / C47.12 decide both ends: the proxies hand back whatever IStorageServer.slot_testv_and_readv_and_writev gives
+# them, and StorageServer's verdict is honest.  In between sit the adapters of storage_client.py and, for HTTP, the
+# handler's response dict and the client's decoding.  An adapter answering (True, reads), swapping the two fields, or
+# a client reading the verdict from another key makes every rejected write look acknowledged: len(self.writers) stays
+# >= k and nothing is surprising, so the publish reports success for shares that were never stored.
+AD_FOOLSCAP = "storage_client:_StorageServer"
+AD_HTTP = "storage_client:_HTTPStorageServer"
+HTTP_CLIENT = "storage.http_client:StorageClientMutables"
+HTTP_HANDLER = "storage.http_server:HTTPServer.mutable_read_test_write"
+
+
+def _strip_wait(e):
+    """x for `yield x`, `await x`, `cast(T, x)`."""
+    for _ in range(8):
+        if isinstance(e, (ast.Await, ast.Yield, ast.YieldFrom)) and e.value is not None:
+            e = e.value
+        elif isinstance(e, ast.Call) and call_tail(e) == "cast" and len(e.args) == 2 and not e.keywords:
+            e = e.args[1]
+        else:
+            break
+    return e
+
+
+def _value_of(fnorm, n, e):
+    """Defining expression of `e` at node n: name copies followed (also through `x = yield ..` / `x = await ..`, which
+    FlowNorm does not treat as copies: the unique reaching plain assignment is used), awaits / yields / typing casts stripped."""
+    cfg = fnorm.cfg
+    for _ in range(8):
+        e = _strip_wait(e)
+        if not isinstance(e, ast.Name):
+            break
+        d = fnorm.resolve(n, e)
+        if d is e:
+            defs = fnorm.rd.get(n.id, {}).get(e.id)
+            if defs and len(defs) == 1:
+                (k,) = defs
+                a = cfg.nodes[k].ast if isinstance(k, int) and 0 <= k < len(cfg.nodes) else None
+                if isinstance(a, ast.Assign) and len(a.targets) == 1 and isinstance(a.targets[0], ast.Name) \
+                        and a.targets[0].id == e.id and cfg.nodes[k].kind == "stmt":
+                    d = a.value
+        if d is e:
+            break
+        e = d
+    return e
+
+
+def _no_silent_end(r, fn, cfg, what):
+    for (n, w) in find_path_avoiding(cfg, lambda n: n.kind == "exit", gate_node=is_return, skip_exc_edges=True):
+        r.violation(fn, fn.loc(), "%s can end without returning %s (path: %s)" % (short(fn), what, w.brief()), w)
+        break
+
+
+def _handler_answer_keys(r, idx):
+    """(key of the verdict, key of the reads) in the response dict of the HTTP read-test-write handler."""
+    fn = idx.func(HTTP_HANDLER)
+    cfg = fn.cfg()
+    fnorm = FlowNorm(fn)
+    rd = reaching_defs(cfg)
+    srv = [(n, c) for n in cfg.nodes for c in calls_at(n, REMOTE)]
+    if len(srv) != 1:
+        raise AnchorVanished("%s: expected one %s call, found %d" % (short(fn), REMOTE, len(srv)))
+    sn, scall = srv[0]
+    r.site(fn, scall, "handler answer")
+
+    def element(n, e):
+        """0 / 1 when `e` is that element of the storage server's answer, else None."""
+        e0 = _strip_wait(e)
+        if isinstance(e0, ast.Subscript) and isinstance(e0.slice, ast.Constant) and e0.slice.value in (0, 1):
+            if _value_of(fnorm, n, e0.value) is scall:
+                return e0.slice.value
+            return None
+        if isinstance(e0, ast.Name):
+            defs = rd.get(n.id, {}).get(e0.id)
+            if defs and len(defs) == 1:
+                (d,) = defs
+                dn = cfg.nodes[d] if isinstance(d, int) and 0 <= d < len(cfg.nodes) else None
+                a = dn.ast if dn is not None else None
+                if isinstance(a, ast.Assign) and len(a.targets) == 1 and isinstance(a.targets[0], (ast.Tuple, ast.List)) \
+                        and _strip_wait(a.value) is scall and len(a.targets[0].elts) == 2:
+                    for i, t in enumerate(a.targets[0].elts):
+                        if isinstance(t, ast.Name) and t.id == e0.id:
+                            return i
+                    return None
+            v = fnorm.resolve(n, e0)
+            if v is not e0:
+                return element(n, v)
+        return None
+    keys = {}
+    dicts = 0
+    for n in cfg.nodes:
+        for c in calls_at(n, "_send_encoded"):
+            for a in list(c.args) + [k.value for k in c.keywords]:
+                v = _value_of(fnorm, n, a)
+                if not isinstance(v, ast.Dict):
+                    continue
+                dicts += 1
+                for k, val in zip(v.keys, v.values):
+                    i = element(n, val)
+                    if isinstance(k, ast.Constant) and i is not None:
+                        if i in keys and keys[i] != k.value:
+                            r.violation(fn, fn.loc(v), "%s answers element %d of the server's result under two keys" % (short(fn), i))
+                        keys[i] = k.value
+    if not dicts:
+        raise AnchorVanished("%s no longer sends a response dict through _send_encoded" % short(fn))
+    for i, what in ((0, "verdict"), (1, "read data")):
+        if i not in keys:
+            r.violation(fn, fn.loc(scall), "%s does not put the storage server's %s (element %d of the %s result) into its response: "
+                        "the client cannot learn whether the write was accepted" % (short(fn), what, i, REMOTE))
+    if len(keys) == 2 and keys[0] == keys[1]:
+        r.violation(fn, fn.loc(scall), "%s sends verdict and reads under the same key %r" % (short(fn), keys[0]))
+    return keys.get(0), keys.get(1)
+
+
+def _client_result_fields(r, idx, fn, depth=0):
+    """{result field: response key} of what StorageClientMutables.read_test_write_chunks returns."""
+    cfg = fn.cfg()
+    fnorm = FlowNorm(fn)
+    rets = cfg.find(is_return)
+    if not rets:
+        raise AnchorVanished("%s returns nothing" % short(fn))
+    _no_silent_end(r, fn, cfg, "the decoded read-test-write result")
+    out = None
+    for n in rets:
+        v = _value_of(fnorm, n, n.ast.value) if n.ast.value is not None else None
+        if isinstance(v, ast.Call) and call_name(v).startswith("self.") and depth < 2 and fn.cls is not None \
+                and fn.cls.lookup(call_tail(v)) is not None:
+            got = _client_result_fields(r, idx, fn.cls.lookup(call_tail(v)), depth + 1)
+        else:
+            cands = [c for c in idx.class_by_name.get(call_tail(v) or "", []) if c.module is fn.module] \
+                if isinstance(v, ast.Call) else []
+            if len(cands) != 1:
+                r.violation(fn, fn.loc(n.ast), "%s returns %s, not a result object built from the decoded response" % (
+                    short(fn), src(fn, n.ast.value) if n.ast.value is not None else "None"))
+                continue
+            fields = [st.target.id for st in cands[0].node.body if isinstance(st, ast.AnnAssign) and isinstance(st.target, ast.Name)]
+            given = {}
+            for i, a in enumerate(v.args):
+                if isinstance(a, ast.Starred) or i >= len(fields):
+                    raise AnalysisError("%s: cannot match the arguments of %s to fields" % (short(fn), src(fn, v)))
+                given[fields[i]] = a
+            for k in v.keywords:
+                if k.arg is None:
+                    raise AnalysisError("%s: cannot match the arguments of %s to fields" % (short(fn), src(fn, v)))
+                given[k.arg] = k.value
+            got = {}
+            for f, e in given.items():
+                e = _value_of(fnorm, n, e)
+                if isinstance(e, ast.Subscript) and isinstance(e.slice, ast.Constant):
+                    base = _value_of(fnorm, n, e.value)
+                    if isinstance(base, ast.Call) and call_tail(base) == "decode_cbor":
+                        got[f] = e.slice.value
+                        continue
+                got[f] = ("<not a response field>", src(fn, e))
+            r.site(fn, v, "decoded result")
+        if out is not None and got != out:
+            r.violation(fn, fn.loc(n.ast), "%s builds its result differently on different paths" % short(fn))
+        out = got if out is None else out
+    return out or {}
+
+
+def _verdict_return_trip(r, idx):
+    # Foolscap: the adapter's result is callRemote's own Deferred
+    fa = idx.func(AD_FOOLSCAP + "." + REMOTE)
+    r.site(fa, None, "foolscap adapter result")
+    _returns_remote(r, idx, fa, depth=0, is_remote=lambda c: call_tail(c) == "callRemote" and bool(c.args)
+                    and isinstance(c.args[0], ast.Constant) and c.args[0].value == REMOTE,
+                    what="callRemote(%r, ..)" % REMOTE, site=False)
+    # HTTP: server dict -> client result object -> adapter tuple
+    kv, kr = _handler_answer_keys(r, idx)
+    cfn = idx.func(HTTP_CLIENT + ".read_test_write_chunks")
+    fields = _client_result_fields(r, idx, cfn)
+    ha = idx.func(AD_HTTP + "." + REMOTE)
+    cfg = ha.cfg()
+    fnorm = FlowNorm(ha)
+    rets = cfg.find(is_return)
+    if not rets:
+        raise AnchorVanished("%s returns nothing" % short(ha))
+    r.site(ha, rets[0].ast, "http adapter result")
+    _no_silent_end(r, ha, cfg, "the (wrote, read_data) answer")
+    if kv is None or kr is None:
+        return
+    for n in rets:
+        v = _value_of(fnorm, n, n.ast.value) if n.ast.value is not None else None
+        if not (isinstance(v, ast.Tuple) and len(v.elts) == 2):
+            r.violation(ha, ha.loc(n.ast), "%s returns %s, not (wrote, read_data)" % (
+                short(ha), src(ha, n.ast.value) if n.ast.value is not None else "None"))
+            continue
+        for pos, (e, key, what) in enumerate(zip(v.elts, (kv, kr), ("the server's verdict", "the server's read data"))):
+            e = _value_of(fnorm, n, e)
+            base = _value_of(fnorm, n, e.value) if isinstance(e, ast.Attribute) else None
+            if not (isinstance(base, ast.Call) and call_tail(base) == cfn.name):
+                r.violation(ha, ha.loc(n.ast), "%s answers with %s as element %d, which is not a field of the %s result: the publisher "
+                            "does not see %s" % (short(ha), src(ha, v.elts[pos]), pos, cfn.name, what))
+                continue
+            got = fields.get(e.attr)
+            r.require(got == key, ha, ha.loc(n.ast), "%s answers with .%s as element %d; the HTTP client fills that field from %s, but "
+                      "the handler sends %s under %r" % (short(ha), e.attr, pos,
+                                                         ("response key %r" % (got,)) if not isinstance(got, tuple) and got is not None
+                                                         else (got[1] if got else "nothing"), what, key))
 
 
 def _returns_result_deferred(r, f):
@@ -934,13 +1294,15 @@ def _proxy_returns_remote(r, idx):
         _returns_remote(r, idx, fp, depth=0)
 
 
-def _returns_remote(r, idx, fn, depth):
+def _returns_remote(r, idx, fn, depth, is_remote=None, what=None, site=True):
+    is_remote = is_remote or (lambda c: call_tail(c) == REMOTE)
+    what = what or REMOTE
     cfg = fn.cfg()
     fnorm = FlowNorm(fn)
     rets = cfg.find(is_return)
     if not rets:
         raise AnchorVanished("%s returns nothing" % short(fn))
-    if depth == 0:
+    if depth == 0 and site:
         r.site(fn, None, "proxy result")
     # a normal exit without 'return' would hand None to the publisher
     for (n, w) in find_path_avoiding(cfg, lambda n: n.kind == "exit", gate_node=is_return):
@@ -948,7 +1310,7 @@ def _returns_remote(r, idx, fn, depth):
     for n in rets:
         v = n.ast.value
         rv = fnorm.resolve(n, v) if v is not None else None
-        if isinstance(rv, ast.Call) and call_tail(rv) == REMOTE:
+        if isinstance(rv, ast.Call) and is_remote(rv):
             # direct return of the remote call; registrations on a local are checked below
             if isinstance(v, ast.Name):
                 _check_passthrough_regs(r, idx, fn, v.id)
@@ -956,9 +1318,10 @@ def _returns_remote(r, idx, fn, depth):
         if isinstance(rv, ast.Call) and call_name(rv).startswith("self.") and depth < 2 and fn.cls is not None:
             g = fn.cls.lookup(call_tail(rv))
             if g is not None:
-                _returns_remote(r, idx, g, depth + 1)
+                _returns_remote(r, idx, g, depth + 1, is_remote, what, site)
                 continue
-        r.violation(fn, fn.loc(n.ast), "%s returns %s, not the Deferred of %s" % (short(fn), src(fn, v), REMOTE))
+        r.violation(fn, fn.loc(n.ast), "%s returns %s, not the Deferred of %s" % (
+            short(fn), src(fn, v) if v is not None else "None", what))
 
 
 def _check_passthrough_regs(r, idx, fn, dvar):
@@ -979,4 +1342,14 @@ _run_publish_recoverable = run
 
 def run(ctx: Context):   # noqa: F811
     _run_publish_recoverable(ctx)
-    ctx.include("C12", ["C12.1", "C12.2", "C12.3", "C12.4", "C12.5", "C12.9", "C12.10", "C12.11", "C12.15"], "C47.9")
+    # C12.16-18: the test vector the writer built is the one the share is compared with - no protocol hop (IStorageServer
+    # adapter, HTTP body, HTTP handler / Foolscap server object, check_testv) drops, filters, re-keys or recomputes any
+    # part of it.  A size recomputed from the specimen turns the 'slot must be empty' guard (0, 1, b'') into a test every
+    # share passes, and the acknowledgement the publisher counts no longer says that the surveyed version was replaced.
+    ctx.include("C12", ["C12.1", "C12.2", "C12.3", "C12.4", "C12.5", "C12.9", "C12.10", "C12.11", "C12.15",
+                        "C12.16", "C12.17", "C12.18"], "C47.9")
+    # C23.9/10: the same hops for the rest of the request and for the answer - the write vectors and new_length the
+    # server applies are the ones the proxy sent (an acknowledged write that stored something else, or nothing, is
+    # counted as a placed share), and the (verdict, read data) the publisher examines is what the server returned.
+    # (Neither C12 nor C23 includes another property: no include cycle.)
+    ctx.include("C23", ["C23.9", "C23.10"], "C47.13")
